@@ -36,6 +36,10 @@ pub struct Shared {
     pub family: Family,
     pub program: Vec<u8>,
     pub witness: Vec<u8>,
+    /// the program rebuilt through `to_construct_node` + `finalize_unpruned` gives the same digests
+    /// for every per-program operation (checked when the plan was generated), so it may be
+    /// shared in its fresh, never traversed state
+    pub rebuild_ok: bool,
 }
 
 #[derive(Clone, Debug, PartialEq)]
@@ -132,7 +136,7 @@ impl Plan {
     pub fn to_json(&self) -> Json {
         json!({
             "site": "c20-shuttle",
-            "shared": self.shared.iter().map(|s| json!({"jets": s.family.name(), "program_hex": hex(&s.program), "witness_hex": hex(&s.witness)})).collect::<Vec<_>>(),
+            "shared": self.shared.iter().map(|s| json!({"jets": s.family.name(), "program_hex": hex(&s.program), "witness_hex": hex(&s.witness), "rebuild_ok": s.rebuild_ok})).collect::<Vec<_>>(),
             "threads": self.threads.iter().map(|t| t.iter().map(op_json).collect::<Vec<_>>()).collect::<Vec<_>>(),
             "scheduler": self.scheduler,
             "sched_seed": self.sched_seed.to_string(),
@@ -151,6 +155,7 @@ impl Plan {
                             family: Family::from_name(s["jets"].as_str().unwrap_or("core")),
                             program: unhex(s["program_hex"].as_str().unwrap_or("")),
                             witness: unhex(s["witness_hex"].as_str().unwrap_or("")),
+                            rebuild_ok: s["rebuild_ok"].as_bool().unwrap_or(false),
                         })
                         .collect()
                 })
@@ -198,6 +203,33 @@ fn digest_bytes(tag: &str, parts: &[&[u8]]) -> u64 {
 
 fn decode(s: &Shared, program: &[u8], witness: &[u8]) -> Result<Arc<RedeemNode>, simplicity::DecodeError> {
     programs::decode_jet_family(s.family, BitIter::new(program.iter().copied()), BitIter::new(witness.iter().copied()))
+}
+
+/// A fresh program object with the same content: nothing has traversed it yet, so whatever a node
+/// computes lazily on first use is still to be computed (by several threads at once).
+fn rebuild(p: &Arc<RedeemNode>) -> Option<Arc<RedeemNode>> {
+    types::Context::with_context(|ctx| p.to_construct_node(&ctx).finalize_unpruned().ok())
+}
+
+/// Do the per-program operations give the same digests on the decoded and on the rebuilt object?
+fn rebuild_equivalent(s: &Shared) -> bool {
+    let d = match decode(s, &s.program, &s.witness) {
+        Ok(d) => d,
+        Err(_) => return false,
+    };
+    if d.as_ref().post_order_iter::<InternalSharing>().count() > 3000 {
+        return false;
+    }
+    let r = match rebuild(&d) {
+        Some(r) => r,
+        None => return false,
+    };
+    let shared = vec![s.clone()];
+    [Op::Roots(0), Op::Unfinalize(0), Op::ToConstruct(0), Op::Exec(0), Op::Prune(0)].iter().all(|op| {
+        let mut a = vec![Some(Arc::clone(&d))];
+        let mut b = vec![Some(Arc::clone(&r))];
+        run_op(op, &shared, &mut a, false) == run_op(op, &shared, &mut b, false)
+    })
 }
 
 fn redeem_digest(p: &RedeemNode) -> u64 {
@@ -938,8 +970,20 @@ fn scenario(plan: &Plan, stats: &Arc<StdMutex<IterStats>>, iteration: usize) {
     // hands references to the threads (the sharing discipline of the property).
     // Mode B (odd iterations): nothing is touched before the threads start; every thread decodes
     // its own copies, so first uses of process- or thread-wide state happen concurrently.
+    // Mode A' (every fourth iteration): as A, but programs that allow it are handed over as
+    // freshly rebuilt objects that nothing has traversed yet.
     let fixtures: Vec<Option<Arc<RedeemNode>>> = if iteration % 2 == 0 {
-        plan.shared.iter().map(|s| decode(s, &s.program, &s.witness).ok()).collect()
+        plan.shared
+            .iter()
+            .map(|s| {
+                let d = decode(s, &s.program, &s.witness).ok()?;
+                if iteration % 4 == 2 && s.rebuild_ok {
+                    rebuild(&d).or(Some(d))
+                } else {
+                    Some(d)
+                }
+            })
+            .collect()
     } else {
         Vec::new()
     };
@@ -1080,7 +1124,12 @@ fn gen_shared(r: &mut Rng, out: &mut RunOut) -> Vec<Shared> {
         if let Some(b) = programs::build(&rec) {
             let (p, w) = b.redeem.to_vec_with_witness();
             if p.len() < 60_000 {
-                v.push(Shared { family, program: p, witness: w });
+                let mut sh = Shared { family, program: p, witness: w, rebuild_ok: false };
+                sh.rebuild_ok = rebuild_equivalent(&sh);
+                if sh.rebuild_ok {
+                    out.count("shared_programs_also_shared_fresh", 1);
+                }
+                v.push(sh);
             }
         }
     }
@@ -1092,7 +1141,9 @@ fn gen_shared(r: &mut Rng, out: &mut RunOut) -> Vec<Shared> {
             1 => t::ctx8_pruned_test_data(),
             _ => t::ctx8_unpruned_test_data(),
         };
-        v.push(Shared { family: Family::Elements, program: d.prog, witness: d.witness });
+        let mut sh = Shared { family: Family::Elements, program: d.prog, witness: d.witness, rebuild_ok: false };
+        sh.rebuild_ok = rebuild_equivalent(&sh);
+        v.push(sh);
         out.count("shared_libsimplicity_vector", 1);
     }
     v
